@@ -479,13 +479,14 @@ func (e *Engine) initIntrinsics() {
 	// arbitrary value in [0,n).
 	randIntn := func(p *Path, fn *ssa.Function, args []Value) Value {
 		n := args[len(args)-1].(*Term)
+		// (a fresh variable, not a harness input: native replay uses the real generator)
 		if !n.IsConst() || n.C == 0 {
-			v := p.ndInt("rand", n.S.W)
+			v := p.tt.Fresh("rand", BV(n.S.W))
 			p.addPC(p.tt.Ult(v, n))
 			return v
 		}
 		// value = raw % n: the interval analysis then knows the range
-		return p.tt.URem(p.ndInt("rand", n.S.W), n)
+		return p.tt.URem(p.tt.Fresh("rand", BV(n.S.W)), n)
 	}
 	in["math/rand.Intn"] = randIntn
 	in["math/rand.Int63n"] = randIntn
